@@ -163,3 +163,8 @@ Definition same_descs (a b : list ((N * N * N) * list fd)) : bool :=
   forallb (fun e => existsb (fun e' =>
      (fst (fst (fst e)) =? fst (fst (fst e'))) && (snd (fst (fst e)) =? snd (fst (fst e'))) &&
      (snd (fst e) =? snd (fst e')) && fds_eqb (snd e) (snd e')) b) a.
+
+(* a long-lived loader object asked for a sequence of loads: every load starts from an empty map
+   (BuildStore's pid_data is a local, released on every path) *)
+Definition run_loads (lo hi : N) (reqs : list (bool * pstore)) : list (option (list lentry * list N)) :=
+  map (fun r => load_model (fst r) lo hi (snd r)) reqs.
